@@ -16,6 +16,7 @@
   for non-negative values) shared with Model/Range.lean.
 -/
 import LtVerif.Model.Basic
+import LtVerif.Extracted.RangeConst
 namespace LtVerif
 namespace Date
 open B
@@ -181,11 +182,12 @@ def renderAsctime (t : Int) : Bytes :=
     ++ yearStr tm.year
 
 /-- http_date_time_to_str() into a buffer of HTTP_DATE_SZ = 30 bytes: strftime()
-    returns 0 when the result (plus NUL) does not fit; gmtime_r() fails only for
+    returns 0 when the result (plus NUL) does not fit (HTTP_DATE_SZ
+    is regenerated from http_date.h); gmtime_r() fails only for
     years far beyond that -/
 def timeToStr (t : Int) : Bytes :=
   let s := renderIMF t
-  if s.length < 30 then s else []
+  if s.length < Extracted.httpDateSz then s else []
 
 /-! ### parsing -/
 
